@@ -603,16 +603,21 @@ func (c *ReverseExpandQuery) callCheckForCandidate(
 	info checkCandidateInfo,
 ) error {
 	info.resolutionMetadata.CheckCounter.Add(1)
-	handlerFunc := c.localCheckResolver.CheckRewrite(ctx,
-		&graph.ResolveCheckRequest{
-			StoreID:              info.req.StoreID,
-			AuthorizationModelID: c.typesystem.GetAuthorizationModelID(),
-			TupleKey:             tuple.NewTupleKey(tmpResult.Object, info.relation, info.req.User.String()),
-			ContextualTuples:     info.req.ContextualTuples,
-			Context:              info.req.Context,
-			Consistency:          info.req.Consistency,
-			RequestMetadata:      graph.NewCheckRequestMetadata(),
-		}, info.userset)
+	// The request must be built by the constructor: a struct literal leaves the invariant part of the
+	// cache key (store, model, context, contextual tuples) at zero, and the sub-problems this check
+	// dispatches would be cached under keys shared by every store, model and request context.
+	checkReq, err := graph.NewResolveCheckRequest(graph.ResolveCheckRequestParams{
+		StoreID:              info.req.StoreID,
+		AuthorizationModelID: c.typesystem.GetAuthorizationModelID(),
+		TupleKey:             tuple.NewTupleKey(tmpResult.Object, info.relation, info.req.User.String()),
+		ContextualTuples:     info.req.ContextualTuples,
+		Context:              info.req.Context,
+		Consistency:          info.req.Consistency,
+	})
+	if err != nil {
+		return err
+	}
+	handlerFunc := c.localCheckResolver.CheckRewrite(ctx, checkReq, info.userset)
 	tmpCheckResult, err := handlerFunc(ctx)
 	if err != nil {
 		operation := "intersection"
